@@ -8,6 +8,7 @@ from vx.explore import Monitor
 from vx.sim import st, summarize_offer
 
 COMPLETED = set(st.COMPLETED_STATUSES)
+ACTIVE = set(st.ACTIVE_STATUSES)
 
 
 def first_diff(a, b, path=""):
@@ -129,12 +130,35 @@ class AppendOnly(Monitor):
     def decided(rec):
         return rec.get("status") in COMPLETED and (bool(rec.get("next")) or rec.get("term"))
 
+    PROBE_STATUSES = ("failed", "succeeded", "canceled", "canceling", "pausing")
+    PROBE_REQUESTS = ("pausing", "paused", "canceling", "canceled", "running", "resuming")
+
+    def on_state(self, sim, post, ctx):
+        """Status requests the lifecycle may reject, tried on a copy wherever an execution is still
+        active beside finished ones (the explorer itself only issues admissible requests)."""
+        state = post.get("state")
+        if not state or post["status"] not in self.PROBE_STATUSES:
+            return []
+        if not any(r.get("status") in ACTIVE for r in state["sequence"]):
+            return []
+        for s in self.PROBE_REQUESTS:
+            twin = ctx.fresh_pre()
+            twin.apply(["req", s], check_pure=False)
+            self.stats["request_probes"] = self.stats.get("request_probes", 0) + 1
+            out = self._compare(post, twin.view(), "req:%s" % ("rejected" if twin.status == post["status"] else "accepted"))
+            if out:
+                out[0]["sig"]["workflow_status"] = post["status"]
+                return out
+        return []
+
     def on_step(self, pre, move, sim, res, post, ctx):
+        return self._compare(pre, post, move[0])
+
+    def _compare(self, pre, post, op):
         a, b = pre.get("state"), post.get("state")
         if not a or not b:
             return []
         self.stats["pairs_compared"] += 1
-        op = move[0]
 
         def v(kind, field, rec=None, detail=None):
             sig = {"field": field, "op": op}
